@@ -38,12 +38,23 @@ def run(ctx):
         allv = x + y + z
         k = allv[0] if allv else 'a'
         mb = MwpBound()
-        for n in x:
-            mb.append('m', n)
-        for n in y:
-            mb.append('w', n)
-        for n in z:
-            mb.append('p', n)
+        # every other bound is LOOKED AT while it is being filled (text, triple, formatted form): a look must not
+        # freeze what later appends add -- the finished bound is compared with one filled without looking
+        peek = (len(triples) + len(allv)) % 2 == 0 and ctx.count('built_with_looks') is None
+        for lst_, scal_ in ((x, 'm'), (y, 'w'), (z, 'p')):
+            for n in lst_:
+                if peek:
+                    _ = (mb.bound_str, mb.bound_triple, str(mb), MwpBound.bound_poly(mb, compact=True))
+                mb.append(scal_, n)
+        if peek:
+            plain = MwpBound()
+            for lst_, scal_ in ((x, 'm'), (y, 'w'), (z, 'p')):
+                for n in lst_:
+                    plain.append(scal_, n)
+            if (mb.bound_str, mb.bound_triple, str(mb)) != (plain.bound_str, plain.bound_triple, str(plain)):
+                ctx.violation({'kind': 'bound-depends-on-when-it-was-read'},
+                              f'bound {x},{y},{z} filled while being read prints as {mb.bound_str!r} / {str(mb)!r}, '
+                              f'filled at once as {plain.bound_str!r} / {str(plain)!r}', {'x': x, 'y': y, 'z': z})
         # parse round trip on the implementation
         back = MwpBound(mb.bound_str)
         ctx.count('lens_%d%d%d' % (len(x), len(y), len(z)))
